@@ -26,7 +26,7 @@ LINE_PASSERS = ('skip_cond_incl', 'include_file')
 
 
 # minimum number of distinct obligations per rule, confirmed by hand on the pinned tree (below: exit 2)
-FLOORS = {'R10.1': 15, 'R10.2': 130, 'R10.3': 14, 'R10.4': 40, 'R10.5': 10, 'R10.6': 47, 'R10.7': 3, 'R10.8': 15, 'R10.10': 12, 'R10.11': 9, 'R10.12': 55}
+FLOORS = {'R10.1': 15, 'R10.2': 130, 'R10.3': 14, 'R10.4': 40, 'R10.5': 10, 'R10.6': 47, 'R10.7': 3, 'R10.8': 15, 'R10.10': 12, 'R10.11': 9, 'R10.12': 55, 'R10.13': 9}
 
 
 def _declare_rules(rep):
@@ -86,7 +86,10 @@ def run(P, rep, tier):
     guarded('R10.3', r103, P, u, T, rep)
     guarded('R10.5', r105, P, u, T, rep)
     r105_width(P, u, rep)
+    guarded('R10.13', r1013_if_operand_types, P, u, T, rep)
     guarded('R10.7', r107, P, u, rep)
+    guarded('R10.7', r107_per_file, P, u, T, rep)
+    guarded('R10.7', r107_probe_predicate, P, rep)
     null_first = guarded('R10.8', r108, P, u, T, rep, dres)
     guarded('R10.10', r1010_joiners, P, rep, bool(null_first))
     guarded('R10.11', r1011_define_option, P, rep)
@@ -604,6 +607,7 @@ def r102(P, u, T, rep, dres):
                'the dispatcher treats `# %s` in the middle of a line as a directive; only `#` at the beginning of a line introduces one' % d,
                where='%s:%d' % (U, fnline))
     _r102_null_directive(P, u, T, rep, universe)
+    _r102_pragma_operand(P, u, T, rep)
     for d in universe:
         if d not in dres:
             continue
@@ -675,6 +679,60 @@ def _r102_null_directive(P, u, T, rep, universe):
         rep.ob('R10.2', '%s:preprocess2:%s/%s' % (U, 'non-directive-nextline-passed' if bad is None else 'non-directive-nextline-taken-for-directive', name), bad is None,
                'after a `#` that stands alone on its line (a null directive) the dispatcher takes the first word of the next line, `%s`, for the name of that directive: %s; '
                'the directive name must be on the same line as the `#` and the next line is ordinary text' % (d, bad[1] if bad else ''),
+               where='%s:%d' % (U, _arm_line(bad[0], fnline) if bad else fnline), facts={'path': bad[0].trail if bad else None})
+
+
+def _r102_pragma_operand(P, u, T, rep):
+    """the operand of a directive is on the directive's line: `#pragma` at the end of a line followed by a line that begins with `once` is an (empty) pragma and
+    a line of ordinary text, not `#pragma once`.  The dispatcher is run on `# pragma` / `w y` for every word w it compares the token after `pragma` with: the
+    file must not be entered in a table (hashmap_put) and the stream must resume at `w`."""
+    fnline = u.fn('preprocess2').line
+    words = set()
+    for c in u.fn('preprocess2').calls('equal'):
+        a = c.args()
+        if len(a) >= 2 and a[1].str_value() is not None and 'next' in a[0].src() and a[1].str_value() not in COND and a[1].str_value() != '#':
+            words.add(a[1].str_value())
+    words.add('once')
+    for w in sorted(words):
+        def mk(ctx, w=w):
+            specs = T.line('a', [('#', 'TK_PUNCT'), ('pragma', 'TK_IDENT')]) + T.line('b', [(w, 'TK_IDENT'), ('y', 'TK_IDENT')]) + T.line('c', [('x', 'TK_IDENT')])
+            ts = T.chain(specs)
+            ctx.toks = ts
+            ctx.tokidx = {id(t): i for i, t in enumerate(ts)}
+            return [ts[0]]
+        it = PPInterp(P, u, pp2_config(u))
+        try:
+            res = it.explore('preprocess2', mk, max_paths=400)
+        except Unsupported as e:
+            rep.undecided('R10.2', '%s:preprocess2:pragma-nextline/%s' % (U, w), 'cannot interpret the dispatcher: %s' % e)
+            continue
+        bad = None
+        good = 0
+        for ctx, out in res:
+            o = outcome(out)
+            puts = calls(ctx, ('hashmap_put', 'hashmap_put2'))
+            if puts:
+                why = 'it enters the file in a table (%s)' % puts[0][1]
+            elif o[0] == 'error':
+                why = 'it ends in the diagnostic of %s()' % o[1]
+            elif o[0] == 'ret':
+                why = 'it runs to the end of the token list'
+            else:
+                t = o[1]
+                if is_resync(t) and t.meta['resync'] == 'skip_line' and idx_of(ctx, t.meta.get('from')) == 2:
+                    t = t.meta['from']
+                i = idx_of(ctx, t)
+                if i == 2:
+                    good += 1
+                    continue
+                why = 'it resumes at %s' % ('token %d of the scenario (text dropped or processed twice)' % i if i is not None else _line_start_ok(ctx, t)[1])
+            bad = bad or (ctx, why)
+        if bad is None and good == 0:
+            rep.undecided('R10.2', '%s:preprocess2:pragma-nextline/%s' % (U, w), 'no path of the dispatcher on `#pragma` / `%s y` could be followed' % w)
+            continue
+        rep.ob('R10.2', '%s:preprocess2:%s/%s' % (U, 'pragma-operand-nextline-passed' if bad is None else 'pragma-operand-taken-from-next-line', w), bad is None,
+               'after `#pragma` at the end of a line the dispatcher takes the first word of the NEXT line, `%s`, for the operand of the pragma: %s; a directive ends at the '
+               'end of its line (`#pragma` / `once` is not `#pragma once`: the file would not be included a second time and the line `once ...` is dropped)' % (w, bad[1] if bad else ''),
                where='%s:%d' % (U, _arm_line(bad[0], fnline) if bad else fnline), facts={'path': bad[0].trail if bad else None})
 
 
@@ -1328,6 +1386,170 @@ def r105_width(P, u, rep):
         rep.undecided('R10.5', '%s:eval_const_expr:callers' % U, 'no caller of eval_const_expr found')
 
 
+# ------------------------------------------------------------------------------------------------ R10.13
+S64, U64 = (8, 0), (8, 1)
+# class of constant: (key, pp-number or character constant, C type the tokenizer / convert_pp_int gives it, probe spellings, what it acts as in #if)
+_IF_OPERAND_CLASSES = (
+    ('number-int', 'number', 'ty_int', ('1',), S64),
+    ('number-long', 'number', 'ty_long', ('4294967296',), S64),
+    # `unsigned int` is what 1u gets, but also what an unsuffixed 0xFFFFFFFF gets: the former acts as uintmax_t, the latter fits intmax_t and is signed
+    ('number-uint-suffixed', 'number', 'ty_uint', ('1u', '2U'), U64),
+    ('number-uint-unsuffixed', 'number', 'ty_uint', ('0xFFFFFFFF', '037777777777'), S64),
+    ('number-ulong-suffixed', 'number', 'ty_ulong', ('1ul', '2LU'), U64),
+    ('number-ulong-unsuffixed', 'number', 'ty_ulong', ('0xFFFFFFFFFFFFFFFF',), U64),
+    ('charconst-int', 'charconst', 'ty_int', ("'u'", "L'a'"), S64),
+    ('charconst-ushort', 'charconst', 'ty_ushort', ("u'a'",), U64),
+    ('charconst-uint', 'charconst', 'ty_uint', ("U'a'",), U64),
+)
+
+
+def _m_memchr(it, ctx, n, args):
+    s, c = args[0], args[1]
+    k = args[2] if len(args) > 2 else None
+    if isinstance(s, str) and isinstance(c, int) and (k is None or isinstance(k, int)):
+        t = s if k is None else s[:k]
+        i = t.find(chr(c & 255))
+        return s[i:] if i >= 0 else 0
+    raise Unsupported('%s on %r' % (n.callee(), s))
+
+
+def _scalar_types(P):
+    """(catalogue, {'ty_int': Type object, ...}): the scalar types of type.c as interpreter objects (values of the globals ty_*)"""
+    from ..chibi import Catalogue
+    cat = Catalogue(P)
+    tyobj = {}
+    for g, f in cat.scalars.items():
+        o = Obj('Type', lazy=True, label=g)
+        for k in ('kind', 'size', 'align', 'is_unsigned'):
+            o.fields[k] = int(f[k]) if isinstance(f[k], (int, bool)) else f[k]
+        o.fields['base'] = 0
+        tyobj[g] = o
+    return cat, tyobj
+
+
+def r1013_if_operand_types(P, u, T, rep):
+    """C11 6.10.1p4: in a controlling expression all signed integer types act as intmax_t and all unsigned ones as uintmax_t.  The evaluator behind
+    eval_const_expr is the ordinary constant folder: it converts and reduces by the *types of the nodes*, and these derive from the types of the number tokens
+    (every other leaf -- identifiers, `defined` -- has been rewritten to a number by then).  So the clause holds only if every number token is 64 bits wide,
+    with the right signedness, at the moment const_expr is called.  eval_const_expr is run on an expanded line made of one probe constant per class (pp-numbers
+    and character constants with their spelling and the C type the tokenizer gives them), convert_pp_tokens modelled (PP_NUM -> NUM of that type); the types are
+    read off when const_expr is called."""
+    rep.rule('R10.13', 'in a controlling expression every integer constant acts as intmax_t or uintmax_t (C11 6.10.1p4): when const_expr is called each number token '
+             'has an 8-byte type; it is unsigned iff the constant is an unsigned character constant, has a `u` suffix or does not fit intmax_t', floor=FLOORS['R10.13'])
+    fn = 'eval_const_expr'
+    where = '%s:%d' % (U, u.fn(fn).line)
+    E = u.enums
+    cat, tyobj = _scalar_types(P)
+    for c in _IF_OPERAND_CLASSES:
+        if c[2] not in tyobj:
+            raise AnalysisBroken('type.c: %s vanished' % c[2])
+
+    def h_read(it, ctx, n, args):
+        r = Obj('Token', lazy=True, label='line-with-defined-rewritten')
+        r.fields['kind'] = E['TK_IDENT']
+        if args:
+            set_out(it, args[0], resync(ctx, 'read_const_expr', args[1] if len(args) > 1 else None))
+        ctx.emit('call', 'read_const_expr', args, n.line, r, None)
+        return r
+
+    def h_pp2(it, ctx, n, args):
+        ctx.ex = []
+        ctx.probe = []
+        for name, kcls, g, spellings, want in _IF_OPERAND_CLASSES:
+            for sp in spellings:
+                t = Obj('Token', lazy=True, label='`%s`' % sp)
+                t.fields.update({'kind': E['TK_PP_NUM'] if kcls == 'number' else E['TK_NUM'], 'loc': sp, 'len': len(sp), 'at_bol': 0, 'has_space': 1})
+                if kcls == 'charconst':
+                    t.fields['ty'] = tyobj[g]
+                t.meta['cty'] = g
+                ctx.ex.append(t)
+                ctx.probe.append((name, sp, t))
+        e = Obj('Token', lazy=True, label='eof'); e.fields['kind'] = E['TK_EOF']; e.fields['next'] = 0
+        ctx.ex.append(e)
+        for a, b in zip(ctx.ex, ctx.ex[1:]):
+            a.fields['next'] = b
+        ctx.emit('call', 'preprocess2', args, n.line, ctx.ex[0], None)
+        return ctx.ex[0]
+
+    def h_conv(it, ctx, n, args):
+        if len(args) != 1 or not hasattr(ctx, 'ex') or settle(it, args[0]) is not ctx.ex[0]:
+            raise AnalysisBroken('convert_pp_tokens is not applied to the macro-expanded line (one argument)')
+        for t in ctx.ex:
+            if settle(it, t.fields.get('kind')) == E['TK_PP_NUM'] and 'cty' in t.meta:
+                t.fields['kind'] = E['TK_NUM']
+                t.fields['ty'] = tyobj[t.meta['cty']]
+        ctx.emit('call', 'convert_pp_tokens', args, n.line, None, None)
+        return None
+
+    def h_const(it, ctx, n, args):
+        ctx.snap = [(name, sp, t.fields.get('kind'), t.fields.get('ty')) for name, sp, t in getattr(ctx, 'probe', [])]
+        if args and hasattr(ctx, 'ex'):
+            set_out(it, args[0], ctx.ex[-1])
+        v = Sym('value-of-expression', 'long')
+        ctx.emit('call', 'const_expr', args, n.line, v, None)
+        return v
+    it = PPInterp(P, u, {'cut': {'read_const_expr': h_read, 'preprocess2': h_pp2, 'const_expr': h_const, 'convert_pp_tokens': h_conv, 'find_macro': h_find_macro},
+                         'models': {'memchr': _m_memchr, 'strchr': _m_memchr}, 'lazy_field': hook, 'loop_limit': 6, 'globals': dict(tyobj)})
+    res = it.explore(fn, lambda ctx: _eval_args(ctx, T), max_paths=400)
+    got = {}        # (class, spelling) -> set of (size, unsigned) | ('?', text)
+    nsnap = 0
+    ints = [cat.enums.get(k) for k in ('TY_LONG', 'TY_INT', 'TY_SHORT', 'TY_CHAR')]
+    for ctx, out in res:
+        if out[0] != 'ret' or not hasattr(ctx, 'snap'):
+            continue
+        nsnap += 1
+        for name, sp, kind, ty in ctx.snap:
+            kind, fin = settle(it, kind), settle(it, ty)
+            have = got.setdefault((name, sp), set())
+            if kind != E['TK_NUM']:
+                have.add(('?', 'the token is no number token any more'))
+            elif not isinstance(fin, Obj):
+                have.add(('?', 'its type is %r' % (fin,)))
+            else:
+                sz, us, kd = (settle(it, fin.fields.get(k)) for k in ('size', 'is_unsigned', 'kind'))
+                if not isinstance(sz, int) or not isinstance(us, (int, bool)) or kd not in ints:
+                    have.add(('?', 'its type is %s' % (fin.label,)))
+                else:
+                    have.add((sz, 1 if us else 0))
+    if nsnap == 0:
+        rep.undecided('R10.13', '%s:%s:if-operand/no-path' % (U, fn), 'eval_const_expr: no returning path through convert_pp_tokens and const_expr could be followed')
+        return
+    tn = {S64: 'long (intmax_t)', U64: 'unsigned long (uintmax_t)', (4, 0): 'int', (4, 1): 'unsigned int', (2, 1): 'unsigned short', (2, 0): 'short',
+          (1, 0): 'char', (1, 1): 'unsigned char'}
+    eg = {'number-int': '`#if (2147483647 + 1) > 0` is false', 'number-uint-suffixed': '`#if 1u << 32` and `#if ~0u == 0xFFFFFFFFFFFFFFFF` are false',
+          'number-uint-unsuffixed': '`#if 0xFFFFFFFF + 1` and `#if -1 < 0xFFFFFFFF` are false',
+          'charconst-int': "`#if ('a' << 31) > 0` is false", 'charconst-ushort': "`#if (u'a' << 32) != 0` is false", 'charconst-uint': "`#if (U'a' << 32) != 0` is false"}
+    for name, kcls, g, spellings, want in _IF_OPERAND_CLASSES:
+        key = '%s:%s:if-operand/%s' % (U, fn, name)
+        ctype = tn.get((int(tyobj[g].fields['size']), int(tyobj[g].fields['is_unsigned'])), g[3:])
+        verdict = None
+        for sp in spellings:
+            have = got.get((name, sp), set())
+            unk = sorted(x[1] for x in have if x[0] == '?')
+            if not have or unk or len(have) > 1:
+                verdict = verdict or ('?', 'the type with which `%s` reaches const_expr could not be determined: %s' % (
+                    sp, unk[0] if unk else ('no path' if not have else 'it depends on something the analysis does not model (%s)' % ', '.join(tn.get(x, str(x)) for x in sorted(have)))))
+                continue
+            h = next(iter(have))
+            what = 'the %s `%s` (C type `%s`)' % ('number' if kcls == 'number' else 'character constant', sp, ctype)
+            if h[0] < 8:
+                verdict = ('narrow', '%s reaches the constant folder of #if/#elif as `%s`: the usual arithmetic conversions and the reduction to the node type are then carried '
+                           'out in %d bits, but in a controlling expression every integer type acts as intmax_t/uintmax_t (C11 6.10.1p4)%s' % (
+                               what, tn.get(h, h), h[0] * 8, ': ' + eg[name] if name in eg else ''))
+                break
+            if h != want:
+                why = {'number-uint-unsuffixed': ': it has no `u` suffix and fits intmax_t, so it is signed (`#if -1 < 0xFFFFFFFF` is true)',
+                       'number-uint-suffixed': ': its `u` suffix makes it unsigned (`#if -1 < 1u` is false)'}.get(name, '')
+                verdict = ('signedness', '%s acts as `%s` in a controlling expression; C11 6.10.1p4 makes it `%s`%s' % (what, tn.get(h, h), tn[want], why))
+                break
+        if verdict is None:
+            rep.ob('R10.13', key, True, '', where=where)
+        elif verdict[0] == '?':
+            rep.undecided('R10.13', key, verdict[1], where=where)
+        else:
+            rep.ob('R10.13', '%s/%s' % (key, verdict[0]), False, verdict[1], where=where)
+
+
 # ------------------------------------------------------------------------------------------------ R10.5
 def r105(P, u, T, rep):
     rep.rule('R10.5', '#if operand preparation order in eval_const_expr: `defined` rewriting, then macro expansion, then remaining identifiers to 0, '
@@ -1357,6 +1579,8 @@ def r105(P, u, T, rep):
             c = Cell(list(kinds), e.label + '.kind', names=knames)
             e.fields['kind'] = View(c)
             ctx.kcell.append(c)
+            if 'ty_long' in tyobj:
+                e.fields['ty'] = tyobj['ty_long']     # which type a number has is R10.13's subject; here: one that needs no adjustment
         ctx.emit('call', 'preprocess2', args, n.line, e0, None)
         return e0
 
@@ -1381,9 +1605,13 @@ def r105(P, u, T, rep):
     # an identifier after macro replacement may well name a macro (`#define X X`: the hide set stops the expansion; a function-like macro name
     # without `(`), C11 6.10.1p4 makes no exception for it
     lookups = ('find_macro',) + TABLE_LOOKUPS       # the latter are cut by PPInterp itself
+    try:
+        tyobj = _scalar_types(P)[1]
+    except (AnalysisBroken, Unsupported):
+        tyobj = {}
     it = PPInterp(P, u, {'cut': {'read_const_expr': h_read, 'preprocess2': h_pp2, 'new_num_token': h_num, 'const_expr': h_const,
                                  'convert_pp_tokens': None, 'find_macro': h_find_macro},
-                         'lazy_field': hook, 'loop_limit': 4})
+                         'lazy_field': hook, 'loop_limit': 4, 'globals': dict(tyobj)})
     want = ['read_const_expr', 'preprocess2', 'convert_pp_tokens', 'const_expr']
     nret = 0
     fails = {}
@@ -1606,7 +1834,8 @@ def _r107_cursor(P, u, rep, gl):
         it = PPInterp(P, u, cfg)
         n = 0
         bad = None
-        for ctx, out in it.explore(fn, lambda ctx: [Sym('filename', 'char *')], max_paths=500):
+        psyms = [Sym('p:' + p.name, p.type) for p in u.params(fn)] or [Sym('filename', 'char *')]
+        for ctx, out in it.explore(fn, lambda ctx: list(psyms), max_paths=500):
             if out[0] != 'ret':
                 continue
             fe = calls(ctx, 'file_exists')
@@ -1631,7 +1860,9 @@ def _r107_cursor(P, u, rep, gl):
                 bad = bad or ('the include directories are not probed in ascending order one by one', ctx.trail)
             if fn == 'search_include_paths' and idxs and idxs[0] != 0:
                 bad = bad or ('the search does not start at the first include directory', ctx.trail)
-            if fn == 'search_include_next' and idxs and _lin_diff(idxs[0], getattr(ctx, 'g0', {}).get('include_next_idx')) != 0:
+            # (where that starting point comes from -- the global cursor or a parameter -- and what the caller puts there: r107_per_file)
+            if fn == 'search_include_next' and idxs and _lin_diff(idxs[0], getattr(ctx, 'g0', {}).get('include_next_idx')) != 0 and \
+                    not any(_lin_diff(idxs[0], ps) == 0 for ps in psyms[1:]):
                 bad = bad or ('#include_next does not start at the cursor left by the previous search', ctx.trail)
         if n == 0:
             rep.undecided('R10.7', '%s:%s:cursor' % (U, fn), 'no path of %s on which a directory probe succeeds could be followed' % fn)
@@ -1639,6 +1870,165 @@ def _r107_cursor(P, u, rep, gl):
         key = 'cursor-after-found-directory' if not bad or 'cursor' in bad[0] else 'probing-order'
         rep.ob('R10.7', '%s:%s:%s' % (U, fn, key if bad else 'cursor-and-probing-order'), bad is None, bad[0] if bad else '', where=where,
                facts={'path': bad[1]} if bad else None)
+
+
+def r107_per_file(P, u, T, rep):
+    """`#include_next` resumes the search behind the directory in which the file that contains the directive was found (gcc manual).  Included files are
+    only tokenised by include_file and processed later, interleaved with whatever they include themselves: every lookup in between moves a global cursor, so
+    the starting point must be a fact recorded per file.  (1) where does search_include_next start?  (a global or a parameter; found by running it.)
+    (2) in the `include_next` arm of the dispatcher that starting point, at the moment of the call, must be a value read from the File of the directive's own
+    tokens, whatever the global held before; (3) include_file stores a cursor into the File of the tokens it returns."""
+    fn = 'search_include_next'
+    where = '%s:%d' % (U, u.fn(fn).line)
+    params = u.params(fn)
+    psyms = [Sym('p:' + p.name, p.type) for p in params]
+    gsyms = {}
+
+    def ginit(name, t):
+        def mk(ctx):
+            return gsyms.setdefault(name, Sym('g:' + name, t))
+        return mk
+    gl = {}
+    for name, d in u.globals.items():
+        t = (d.dtype or d.type or '').strip()
+        if t in ('int', 'long', 'unsigned int', 'unsigned long', 'size_t'):
+            gl[name] = ginit(name, t)
+    gl['include_paths'] = lambda ctx: Obj('StringArray', lazy=True, label='include_paths')
+    it = PPInterp(P, u, {'cut': {'file_exists': None}, 'globals': gl, 'lazy_field': hook, 'loop_limit': 2})
+    src = set()
+    for ctx, out in it.explore(fn, lambda ctx: list(psyms), max_paths=200):
+        fe = calls(ctx, 'file_exists')
+        if not fe:
+            continue
+        i0 = _dir_index(fe[0][2][0] if fe[0][2] else None)
+        hit = [('global', g) for g, sy in gsyms.items() if _lin_diff(i0, sy) == 0] + [('param', k) for k, sy in enumerate(psyms) if _lin_diff(i0, sy) == 0]
+        src.add(hit[0] if hit else ('?', repr(i0)))
+    if len(src) != 1 or next(iter(src))[0] == '?':
+        rep.undecided('R10.7', '%s:%s:start' % (U, fn), 'where search_include_next starts probing could not be determined (%s)' % sorted(src), where=where)
+        return
+    kind, which = next(iter(src))
+    # (2) the include_next arm
+    cfg = pp2_config(u)
+    cfg['globals'] = dict(cfg['globals'])
+    stale = Sym('cursor-left-by-the-last-lookup', 'int')
+    if kind == 'global':
+        cfg['globals'][which] = stale
+    cfg['cut'] = dict(cfg['cut'])
+
+    def h_next(it2, ctx, n, args):
+        v = it2.read_global(which) if kind == 'global' else None
+        if kind == 'param':
+            v = args[which] if which < len(args) else None
+        ctx.start_at = v
+        t = n.dtype or n.type
+        r = it2.lazy_value(t, ctx.fresh('search_include_next'))
+        ctx.emit('call', 'search_include_next', args, n.line, r)
+        return r
+    cfg['cut']['search_include_next'] = h_next
+    it2 = PPInterp(P, u, cfg)
+    res = it2.explore('preprocess2', directive_scenario(T, 'include_next'), max_paths=400)
+    verdicts = set()
+    line = u.fn('preprocess2').line
+    for ctx, out in res:
+        if not calls(ctx, 'search_include_next'):
+            continue
+        line = _arm_line(ctx, line)
+        v = settle(it2, getattr(ctx, 'start_at', None))
+        if v is stale:
+            verdicts.add('stale')
+        elif isinstance(v, Sym) and '.file.' in v.name and v.name.split('.file.')[0] in ('a0:#', 'a1:include_next', 'a2:M'):
+            verdicts.add('file:' + v.name.split('.file.')[1])
+        else:
+            verdicts.add('?%r' % (v,))
+    arm = '%s:%d' % (U, line)
+    if not verdicts or any(x.startswith('?') for x in verdicts):
+        rep.undecided('R10.7', '%s:preprocess2:include_next/starts-behind-its-own-file' % U,
+                      'the starting point of the #include_next search could not be followed: %s' % (sorted(verdicts) or 'no path reaches search_include_next'), where=arm)
+        return
+    ok = 'stale' not in verdicts
+    rep.ob('R10.7', '%s:preprocess2:include_next/%s' % (U, 'starts-behind-its-own-file' if ok else 'starts-at-the-global-cursor'), ok,
+           '`#include_next` starts its search at the value some earlier lookup left in the %s `%s`, not at a position recorded for the file the directive stands in: '
+           'included files are processed after include_file has returned, so any `#include <...>` between the inclusion of a header and its `#include_next` (d1/a.h: '
+           '`#include <b.h>` / `#include_next <a.h>`, b.h found in a later directory) makes the search resume behind the wrong directory (a.h: cannot open file, or a '
+           'header is skipped)' % ('global' if kind == 'global' else 'argument', which if kind == 'global' else params[which].name), where=arm)
+    if not ok:
+        return
+    # (3) include_file records the position in the File of the tokens it includes
+    field = sorted(x[5:] for x in verdicts)[0]
+    fn3 = 'include_file'
+    where3 = '%s:%d' % (U, u.fn(fn3).line)
+    newfile = {}
+
+    def h_tokfile(it3, ctx, n, args):
+        f = Obj('File', lazy=True, label='included-file')
+        t = Obj('Token', lazy=True, label='file-tokens')
+        t.fields['file'] = f
+        ctx.newfile = f
+        ctx.emit('call', 'tokenize_file', args, n.line, t, None)
+        return t
+    p3 = u.params(fn3)
+    a3 = [Obj('Token', lazy=True, label=p.name) if (p.type or '').startswith('Token') else Sym('p:' + p.name, p.type) for p in p3]
+    gl3 = dict(gl)
+    it3 = PPInterp(P, u, {'cut': {'hashmap_get': _h_map('hashmap_get', lambda it, ctx, n, args, table: 0), 'hashmap_put': _h_map('hashmap_put', None),
+                                  'tokenize_file': h_tokfile, 'detect_include_guard': None, 'append': None, 'strerror': None, '__errno_location': None},
+                          'globals': gl3, 'lazy_field': hook, 'loop_limit': 2})
+    rec = set()
+    for ctx, out in it3.explore(fn3, lambda ctx: list(a3), max_paths=200):
+        if out[0] != 'ret' or not hasattr(ctx, 'newfile'):
+            continue
+        v = ctx.newfile.fields.get(field)
+        v = settle(it3, v)
+        if v is None:
+            rec.add('unset')
+        elif any(v is a for a in a3) or any(v is sy for sy in gsyms.values()):
+            rec.add('set')
+        else:
+            rec.add('?%r' % (v,))
+    if not rec or any(x.startswith('?') for x in rec):
+        rep.undecided('R10.7', '%s:%s:records-%s' % (U, fn3, field), 'what include_file stores in File.%s of the included file could not be followed: %s' % (field, sorted(rec)), where=where3)
+        return
+    ok3 = rec == {'set'}
+    rep.ob('R10.7', '%s:%s:%s-%s' % (U, fn3, 'records' if ok3 else 'does-not-record', field), ok3,
+           'include_file hands back the tokens of a freshly read file without storing the search position in File.%s, which `#include_next` in that file starts from' % field, where=where3)
+
+
+def r107_probe_predicate(P, rep):
+    """the include search takes the first directory in which the name denotes a *file that can be included*: the predicate it probes with must be able to answer
+    "no" for a name that exists (stat succeeds) but is a directory -- otherwise `#include <foo>` with a directory d1/foo and a header d2/foo stops at d1.  Decided by
+    running the predicate with stat() answering 0: its result must depend on what stat reported (both answers reachable)."""
+    mu = P.unit('main.c')
+    fn = 'file_exists'
+    if fn not in mu.functions:
+        rep.undecided('R10.7', 'main.c:file_exists:vanished', 'the predicate of the include search (file_exists) vanished')
+        return
+    where = 'main.c:%d' % mu.fn(fn).line
+
+    def h_stat(it, ctx, n, args):
+        v = View(Cell([0, -1], ctx.fresh('stat'), names={0: 'found', -1: 'ENOENT'}))
+        ctx.stat = v
+        ctx.emit('call', 'stat', args, n.line, v, None)
+        return v
+    from ..interp import Interp
+    it = Interp(P, mu, {'cut': {'stat': h_stat, 'lstat': h_stat, 'fstatat': h_stat, 'access': h_stat}, 'loop_limit': 2})
+    found = set()
+    missing = set()
+    for ctx, out in it.explore(fn, lambda ctx: [Sym('path', 'char *')], max_paths=100):
+        if out[0] != 'ret' or not hasattr(ctx, 'stat'):
+            continue
+        st = settle(it, ctx.stat)
+        if isinstance(st, View) and isinstance(out[1], View) and out[1].cell is st.cell:
+            for c in st.cell.cands:
+                (found if c == 0 else missing).add(truth_in(it, ctx, out[1].proj(c)))
+            continue
+        (found if st == 0 else missing).add(truth_in(it, ctx, out[1]))
+    if not found or None in found:
+        rep.undecided('R10.7', 'main.c:%s:answer' % fn, 'what file_exists answers when stat() succeeds could not be followed (%s)' % sorted(found, key=repr), where=where)
+        return
+    ok = found == {True, False}
+    rep.ob('R10.7', 'main.c:%s:%s' % (fn, 'tells-files-from-directories' if ok else 'directory-satisfies-the-search'), ok,
+           'file_exists answers %s whenever stat() succeeds, whatever kind of object the name denotes: a DIRECTORY named like the header satisfies the include search '
+           '(d1/foo/ a directory, d2/foo the header: `#include <foo>` stops at d1 and includes nothing, without a diagnostic; gcc skips d1)' % ('yes' if True in found else 'no'),
+           where=where)
 
 
 def _dir_index(p):
